@@ -33,8 +33,8 @@ Next == /\ phase[1] = "b"
                     phase' = <<"c", tr, m, cap, 0, "r", FrameOctets(T_RREQ, Opts(tr, m = 1, FALSE) + O_PLCRC, 0, Sq, Ad, <<0, words>>, <<>>)>>
               \/ \E hi \in {1, 32767, 32768, 65535}, lo \in {0, 1, 5, 65535}, ws16 \in {0, 1} :        \* reads of 2^16 .. 2^32 - 1 words
                     phase' = <<"c", tr, m, cap, 0, "r", FrameOctets(T_RREQ, Opts(tr, ws16 = 1, FALSE), 0, Sq, Ad, <<hi, lo>>, <<>>)>>
-              \/ \E k \in 0..Hdr(tr) - 1 :                                                  \* cut below a header
-                    phase' = <<"c", tr, m, cap, 0, "s", Take(Request(tr, FALSE, m = 1, Sq, Ad, 1, <<>>), k)>>
+              \/ \E k \in 0..Hdr(tr) - 1, af \in {0, 1} :                                   \* cut below a header (also while no block can be had)
+                    (af = 1 => k < 12) /\ phase' = <<"c", tr, m, cap, af, "s", Take(Request(tr, FALSE, m = 1, Sq, Ad, 1, <<>>), k)>>
 Spec == Init /\ [][Next]_phase
 
 Cfg == [tr |-> phase[2], mem16 |-> phase[3] = 1, cap |-> phase[4]]
@@ -53,8 +53,8 @@ C09Holds ==
               /\ ob[3] \in {0, 1} /\ ob[4] = ob[3] /\ ob[5] = 0 /\ ob[6] = 0                                   \* ledger
               /\ (ob[7] = 1 => /\ ob[11] * ws <= cap - 12                                                      \* the block the backend fills fits
                                /\ (ob[8] = 1 => Len(ob) >= 11 + ob[11] * ws /\ ob[11 + ob[11] * ws + 1] = -7))   \* a write hands over exactly the announced block
-              /\ (Len(o) < 12 => ob[7] = 0 /\ ob[2] = C_ENC /\ ~NoReply(ob) /\ Fields(ReplyOf(ob).frame).type = T_META /\ Fields(ReplyOf(ob).frame).meta = M_HEADERENC)
-              /\ (Len(o) >= 12 /\ phase[5] = 1 =>                                                               \* allocation failure
+              /\ (Len(o) < 12 => ob[7] = 0 /\ ob[2] \in {C_ENC, 16} /\ ~NoReply(ob) /\ Fields(ReplyOf(ob).frame).type = T_META /\ Fields(ReplyOf(ob).frame).meta = M_HEADERENC)
+              /\ (Len(o) >= 12 /\ phase[5] = 1 /\ phase[6] # "s" =>                                              \* allocation failure
                        ob[3] = 0 /\ ob[7] = 0 /\ LET g == Fields(ReplyOf(ob).frame) IN g.meta = EBUSY /\ g.sq = Sq /\ g.addr = Ad /\ g.type = Fields(o).type + 1)
               /\ (Len(o) >= 12 /\ phase[5] = 0 /\ Len(o) > cap =>                                               \* frame too large for the block
                        ob[7] = 0 /\ LET g == Fields(ReplyOf(ob).frame) IN g.meta = ERXOVERFLOW /\ g.sq = Sq /\ g.addr = Ad /\ g.type = Fields(o).type + 1)
